@@ -47,6 +47,10 @@ structure Obj where
   created  : Nat
   recycled : Option Nat := none
   rc       : Nat := 0
+  /-- ghost: number of times the object has been handed out (not observable) -/
+  handouts : Nat := 0
+  /-- ghost: when the object was last put into the idle queue (not observable) -/
+  idleSince : Nat := 0
 deriving Repr, DecidableEq, Inhabited
 
 /-- How a `get()` ended. -/
@@ -105,7 +109,7 @@ inductive Ev
   | createCall (op : Nat)
   | call (op : Nat) (ph : Phase) (k : Nat) (o : Obj)
   | detach (op : Nat) (id : Nat)
-  | destroy (id : Nat)
+  | destroy (op : Nat) (id : Nat)
   | handout (op : Nat) (o : Obj)
   | result (op : Nat) (r : Res)
   | returned (op : Nat) (id : Nat)
@@ -211,6 +215,7 @@ def arriveRecycle (s : State) (i : Nat) (t : Timeouts) (k : Nat) (o : Obj) : Sta
 
 /-- successful end of `try_recycle` / `try_create`: the object is handed out -/
 def handOut (s : State) (i : Nat) (o : Obj) : State :=
+  let o := { o with handouts := o.handouts + 1 }
   ({ s with out := s.out ++ [o] }.setOp i .done).emit [.handout i o, .result i (.ok o.id)]
 
 def arrivePostCreate (s : State) (i : Nat) (t : Timeouts) (k : Nat) (o : Obj) : State :=
@@ -347,7 +352,7 @@ def stepGet (s : State) (i : Nat) (t : Timeouts) (pc : GPc) (oc : Outcome) : Opt
       (.get t (.unreadyDetach o c)))
   -- 167: `Manager::detach`, then the object is destroyed
   | .unreadyDetach o c, .run =>
-    let s := s.emit [.detach i o.id, .destroy o.id]
+    let s := s.emit [.detach i o.id, .destroy i o.id]
     match c with
     | .retry => some (s.setOp i (.get t .pop))
     | .fail r => some (s.setOp i (.get t (.dropPermit r)))
@@ -369,13 +374,14 @@ def stepRet (s : State) (i : Nat) (pc : RPc) (o : Obj) : Option State :=
   | .lock =>
     if !s.lockFree i then none else
     if s.size ≤ s.maxSize then
+      let o := { o with idleSince := s.now }
       some (({ s with idle := s.idle ++ [o] }.setOp i (.ret .addPermits o)).emit [.returned i o.id])
     else
       -- surplus after a shrink: the object is discarded and its token with it
       some ({ s with size := s.size - 1, fault := decFault s.fault s.size 1,
                      debt := s.debt - 1 }.setOp i (.ret .detach o))
   | .addPermits => some ({ s with sem := s.sem.addPermits 1 }.setOp i .done)
-  | .detach => some ((s.setOp i .done).emit [.detach i o.id, .destroy o.id])
+  | .detach => some ((s.setOp i .done).emit [.detach i o.id, .destroy i o.id])
 
 /-! ### `Object::take` → `detach_object` -/
 
@@ -427,7 +433,7 @@ def stepResize (s : State) (i : Nat) (n : Nat) (isClose : Bool) (pc : ZPc) (old 
         match s.idle with
         | o :: rest =>
           some ({ s with sem := sem, idle := rest, size := s.size - 1, debt := s.debt - 1,
-                         fault := decFault s.fault s.size 1 }.emit [.detach i o.id, .destroy o.id])
+                         fault := decFault s.fault s.size 1 }.emit [.detach i o.id, .destroy i o.id])
         | [] => some { s with sem := sem, debt := s.debt - 1 }
       | (_, _) => some (finishResize s i n isClose old)
     else some (finishResize s i n isClose old)
